@@ -579,10 +579,17 @@ class WorkerPool:
             f'Failed at {running_total}/{total_tasks} task.'
         ) from failed_tasks[-1].exception()
       if timeout_cnt > retry_threshold and timeout_tasks:
-        assert (e := timeout_tasks[-1].exception()) is not None
+        last_task = timeout_tasks[-1]
+        if last_task.state is not None and last_task.state.cancelled():
+          # The task of a disconnected worker was cancelled above, asking for
+          # its exception would raise CancelledError instead.
+          last_error = f'worker {last_task.server_name} disconnected.'
+        else:
+          assert (e := last_task.exception()) is not None
+          last_error = e.args[0]
         raise TimeoutError(
             f'Too many Timeouts: {timeout_cnt} > {retry_threshold}, last'
-            f' error: {e.args[0]}'
+            f' error: {last_error}'
         )
     delta_time = time.time() - start_time
     logging.info(
